@@ -159,6 +159,9 @@ func sigForCase(prop string, c DfCase, msg string) string {
 			return prop + ":perfork-disable:returned-output:run-time-flags-next-to-a-literal-split"
 		}
 	}
+	if c.Kp != nil && c.Kp.Mix != "" {
+		return prop + ":nest:literal-collection-of-run-time-arrays-of-different-lengths"
+	}
 	if c.Kp != nil && literalNullJob(*c.Kp, msg) {
 		return prop + ":nest:literal-null-element-runs-a-job"
 	}
